@@ -159,5 +159,11 @@ INFO["C18"] = {
 NOTES = (
     "All checks are solver-based (Kani/CBMC on the real source, regenerated from /repo on every run). "
     "Exit 2 means the machinery was inconclusive (timeout, memory, vacuity, non-reproducing counterexample) and is never a pass. "
-    "Known genuine defects that are not repaired are listed in /verif/known_findings.json."
+    "Known genuine defects that are not repaired are listed in /verif/known_findings.json. "
+    "Partly claimed: C13 without its `sync:` clause and without whole-program runs (4 loop iterations of the real Cpu::run with scripted instructions); "
+    "C05/C06 nesting deeper than one call/exception and C10 queues longer than 3 follow by induction from single-step claims that hold from arbitrary pre-states "
+    "(an argument on paper, not a solver run); C02 DIVXU.W only for divisors < 16 (quick) / < 256 (thorough); C09 writes only at an enumerated boundary set "
+    "(symbolic write addresses bit-blast the 2 MiB DRAM array); C14 write() lengths <= 4 (8 in thorough); C15 does not cover control-channel lines (C18's code). "
+    "Quick tiers stay below 900 s each; C20's quick tier holds 140 of its 254 form harnesses (all in thorough). "
+    "33 independently seeded changes (seeded/) and the revert of each fix: commit (seeded/REVERTED_FIXES.md) are caught."
 )
